@@ -2,6 +2,7 @@
 pub mod rng;
 pub mod simchain;
 pub mod locks;
+pub mod pollworld;
 pub mod simnode;
 pub mod world;
 
